@@ -162,8 +162,11 @@ func c02real(ev *evidence.Run, tier string, states, transitions *int) {
 		"a/a.go": strings.Replace(c03Extra1, "package extra1", "package a", 1),
 		"a/d.go": "package a\n\nimport (\n\t\"fmt\"\n\tf2 \"fmt\"\n\t\"os\"\n\to2 \"os\"\n)\n\nfunc dd(fmt3 int) { fmt.Println(f2.Sprint(), os.Args, o2.Args) }\n",
 		"b/b.go": strings.Replace(c03Extra2, "package extra2", "package b", 1),
+		// same-named function-local types of different sizes, sized by several checkers (shared-state races
+		// between concurrently running checkers show up as run-to-run differences)
+		"b/l.go": c02LocalTypes,
 	})
-	n := 8
+	n := 12
 	if tier == "thorough" {
 		n = 24
 	}
@@ -203,6 +206,47 @@ func c02real(ev *evidence.Run, tier string, states, transitions *int) {
 		}
 	}
 }
+
+const c02LocalTypes = `package b
+
+func sumBig(k int) int {
+	type rec struct{ a [200]int }
+	xs := make([]rec, 2)
+	var arr [4]rec
+	n := 0
+	for _, x := range xs {
+		n += x.a[0]
+	}
+	for _, x := range arr {
+		n += x.a[0]
+	}
+	return n + k
+}
+
+func sumSmall(k int) int {
+	type rec struct{ a [1]int }
+	xs := make([]rec, 2)
+	var arr [4]rec
+	n := 0
+	for _, x := range xs {
+		n += x.a[0]
+	}
+	for _, x := range arr {
+		n += x.a[0]
+	}
+	return n + k
+}
+
+func sumMid(k int) int {
+	type rec struct{ a [20]int }
+	var arr [4]rec
+	n := 0
+	for _, x := range arr {
+		n += x.a[0]
+	}
+	return n + k
+}
+`
 
 func diffFirst(a, b string) string {
 	al, bl := strings.Split(a, "\n"), strings.Split(b, "\n")
